@@ -41,6 +41,11 @@ func OpenReader(r io.Reader) (*Reader, error) {
 	if err != nil {
 		return nil, fmt.Errorf("parsing HTML: %w", err)
 	}
+	// Everything below walks the tree recursively. Browsers cap the tree depth (Blink: 512);
+	// a document nested deeper is not content, and would exhaust the stack if it were followed.
+	if d := treeDepth(doc); d > maxTreeDepth {
+		return nil, fmt.Errorf("HTML nested %d levels deep (limit %d)", d, maxTreeDepth)
+	}
 
 	reader := &Reader{
 		doc:           doc,
@@ -56,6 +61,33 @@ func OpenReader(r io.Reader) (*Reader, error) {
 	reader.extractBody(doc)
 
 	return reader, nil
+}
+
+// maxTreeDepth is the deepest element nesting that is processed.
+const maxTreeDepth = 512
+
+// treeDepth returns the depth of the deepest node below n (iteratively: it must not recurse).
+func treeDepth(n *html.Node) int {
+	depth, max := 0, 0
+	for c := n; c != nil; {
+		if c.FirstChild != nil {
+			c = c.FirstChild
+			depth++
+			if depth > max {
+				max = depth
+			}
+			continue
+		}
+		for c != n && c.NextSibling == nil {
+			c = c.Parent
+			depth--
+		}
+		if c == n {
+			break
+		}
+		c = c.NextSibling
+	}
+	return max
 }
 
 // Close releases resources associated with the Reader.
